@@ -163,7 +163,29 @@ fn convert_oracle(s: &Spec, g: &G, q: &Q) -> Result<(), String> {
     Ok(())
 }
 
-fn convert_output(g: &G, q: &Q) -> String {
+/// The Ising sampler's own Hamiltonian as the public `QmcIsingGraph::hamiltonian` reports it, for every
+/// bond the sampler uses and every pattern (ins major, outs minor) — ties `isingHam` directly.
+fn ising_table(s: &Spec, g: &G) -> String {
+    let info = g.make_haminfo();
+    let e = s.edges.len();
+    let nb = e + s.nv + if s.h.abs() > f64::EPSILON { s.nv } else { 0 };
+    let bonds: Vec<String> = (0..nb)
+        .map(|b| {
+            let (vars, _) = ising_bond_vars(s, b);
+            let pats = patterns(vars.len());
+            let mut t = vec![];
+            for ins in &pats {
+                for outs in &pats {
+                    t.push(rat(G::hamiltonian(&info, &vars, b, ins, outs)));
+                }
+            }
+            t.join(",")
+        })
+        .collect();
+    if bonds.is_empty() { "-".into() } else { bonds.join("!") }
+}
+
+fn convert_output(s: &Spec, g: &G, q: &Q) -> String {
     let bonds: Vec<String> = q
         .get_bonds()
         .iter()
@@ -176,7 +198,7 @@ fn convert_output(g: &G, q: &Q) -> String {
     let vars: Vec<String> = js["bonds"].as_array().unwrap().iter().map(|b| b["vars"].as_array().unwrap().iter().map(|v| v.to_string()).collect::<Vec<_>>().join(".")).collect();
     let ncd: Vec<u64> = js["non_const_diags"].as_array().unwrap().iter().map(|v| v.as_u64().unwrap()).collect();
     format!(
-        "ok {} {} {} {} {} {} {} {}{}{}{}{} {}",
+        "ok {} {} {} {} {} {} {} {}{}{}{}{} {} {} 1",
         if bonds.is_empty() { "-".to_string() } else { bonds.join("!") },
         if vars.is_empty() { "-".to_string() } else { vars.join("!") },
         rat(q.get_offset()),
@@ -190,6 +212,7 @@ fn convert_output(g: &G, q: &Q) -> String {
         q.should_do_loop_update() as u8,
         q.should_do_heatbath() as u8,
         list(&ncd),
+        ising_table(s, g),
     )
 }
 
@@ -209,7 +232,7 @@ fn convert_case(s: &Spec, cutoff: usize, seed: u64, state: Vec<bool>, beta: f64,
     match catch(move || gc.into_qmc()) {
         Ok(q) => {
             let o = convert_oracle(s, &g, &q);
-            emit(true, &input, &convert_output(&g, &q), Some(o));
+            emit(true, &input, &convert_output(s, &g, &q), Some(o));
         }
         Err(p) => emit(true, &input, "P", Some(Err(format!("into_qmc panicked: {}", p)))),
     }
@@ -245,8 +268,13 @@ fn lockstep_case(s: &Spec, cutoff: usize, seed: u64, state: Vec<bool>, beta: f64
     let mut observed = "same".to_string();
     let (mut sum_g, mut sum_q) = (0usize, 0usize);
     for t in 0..kpost {
-        g.timestep(beta);
-        q.timestep(beta);
+        if let Err(p) = catch(|| {
+            g.timestep(beta);
+            q.timestep(beta);
+        }) {
+            observed = format!("panic@{}:{}", t + 1, p.replace(' ', "_").chars().take(60).collect::<String>());
+            break;
+        }
         sum_g += QmcStepper::get_n(&g);
         sum_q += QmcStepper::get_n(&q);
         let what = if g.state_ref() != q.state_ref() {
@@ -297,6 +325,54 @@ fn lockstep_case(s: &Spec, cutoff: usize, seed: u64, state: Vec<bool>, beta: f64
         &format!("lockstep{} {} {} {} {} {} {} {} {} {}", tag, spec_tok(s), cutoff, rat(beta), seed, kpre, kpost, opts.rvb as u8, opts.hb as u8, observed),
         &format!("1 {} {}", gate as u8, ediff),
         oracle,
+    );
+    same
+}
+
+/// Diagonal sweeps only (`single_diagonal_step` vs `diagonal_update`), side by side from the same RNG
+/// state: must agree for every h (both sweeps see the same Hamiltonian and cutoff; no cluster update
+/// is involved), which is the part of the trajectory clause that survives F4.
+fn diagstep_case(s: &Spec, cutoff: usize, seed: u64, state: Vec<bool>, beta: f64, kpre: usize, kpost: usize) -> bool {
+    let mut g = build(s, cutoff, seed, state);
+    for _ in 0..kpre {
+        g.timestep(beta);
+    }
+    let gc = g.clone();
+    let mut q = match catch(move || gc.into_qmc()) {
+        Ok(q) => q,
+        Err(_) => return false, // reported by the convert mode
+    };
+    let mut observed = "same".to_string();
+    for t in 0..kpost {
+        if let Err(p) = catch(|| {
+            g.single_diagonal_step(beta);
+            q.diagonal_update(beta);
+        }) {
+            observed = format!("panic@{}:{}", t + 1, p.replace(' ', "_").chars().take(60).collect::<String>());
+            break;
+        }
+        let what = if g.state_ref() != q.state_ref() {
+            "state"
+        } else if QmcStepper::get_n(&g) != QmcStepper::get_n(&q) {
+            "n"
+        } else if g.get_cutoff() != q.get_cutoff() {
+            "cutoff"
+        } else if show_slots(g.get_manager_ref()) != show_slots(q.get_manager_ref()) {
+            "ops"
+        } else {
+            ""
+        };
+        if !what.is_empty() {
+            observed = format!("diverged@{}:{}", t + 1, what);
+            break;
+        }
+    }
+    let same = observed == "same";
+    emit(
+        kpost > 0,
+        &format!("diagstep {} {} {} {} {} {} {}", spec_tok(s), cutoff, rat(beta), seed, kpre, kpost, observed),
+        "1",
+        Some(if same { Ok(()) } else { Err(format!("diagonal sweeps differ ({}) h={}", observed, s.h)) }),
     );
     same
 }
@@ -359,7 +435,7 @@ fn main() {
         let reps = if a.thorough { 400 } else { 80 };
         let (mut hz, mut hz_same, mut hn, mut hn_same, mut op, mut op_same) = (0, 0, 0, 0, 0, 0);
         for rep in 0..reps {
-            let hk = if rep % 4 == 3 { 1 + gen.below(2) } else { 0 };
+            let hk = if rep % 3 == 2 { 1 + gen.below(2) } else { 0 };
             let s = gen_spec(&mut gen, hk);
             let cutoff = match gen.below(3) {
                 0 => 1 + gen.below(s.nv as u64 - 1) as usize,
@@ -371,6 +447,7 @@ fn main() {
             let kpost = 20;
             let beta = *gen.pick(&betas);
             let seed = gen.next();
+            let state_for_diag = state.clone();
             if hk == 0 {
                 let same = lockstep_case(&s, cutoff, seed, state.clone(), beta, kpre, kpost, Opts { rvb: false, hb: false }, true, "");
                 hz += 1;
@@ -383,10 +460,14 @@ fn main() {
                 }
             } else {
                 // h != 0: observation recorded, judged only on the recorded witness below
-                let same = lockstep_case(&s, cutoff, seed, state, beta, kpre, kpost, Opts { rvb: false, hb: false }, false, "-h");
+                let same = lockstep_case(&s, cutoff, seed, state.clone(), beta, kpre, kpost, Opts { rvb: false, hb: false }, false, "-h");
                 hn += 1;
                 hn_same += same as usize;
             }
+            // the diagonal sweeps must agree whatever h is
+            let dsame = diagstep_case(&s, cutoff, seed, state_for_diag, beta, kpre, kpost);
+            stat(if hk == 0 { "diagstep_h_zero_runs" } else { "diagstep_h_nonzero_runs" }, 1);
+            stat("diagstep_same", dsame as usize);
         }
         stat("lockstep_h_zero_runs", hz);
         stat("lockstep_h_zero_same", hz_same);
